@@ -2,6 +2,15 @@
 from pvc.api import *
 from contracts.polyspec import *
 
+
+def _jacobi_ab(rng):
+    """Jacobi weight parameters: random, or one of the classical special pairs (Legendre, the four Chebyshev kinds, Gegenbauer,
+    pairs with alpha + beta = 0 or -1, where the general recurrence coefficients at n = 0 are 0/0 and the code has a special case)"""
+    special = [(0.0, 0.0), (-0.5, -0.5), (0.5, 0.5), (-0.5, 0.5), (0.5, -0.5), (0.3, -0.3), (-0.25, -0.75), (1.0, 1.0), (2.0, -0.5)]
+    if rng.random() < 0.4:
+        return special[int(rng.integers(0, len(special)))]
+    return float(rng.uniform(-0.9, 3)), float(rng.uniform(-0.9, 3))
+
 P = 'prysm.polynomials.'
 
 
@@ -24,7 +33,7 @@ def clenshaw_small(L):
     """jacobi_sum_clenshaw(s, a, b, x) = sum_k s_k P_k^(a,b)(x) for coefficient vectors of length L (one obligation per
     L = 1..3: symbolic coefficients, parameters and points; longer vectors are served by the bounded harness)."""
     a, b = Real('alpha'), Real('beta')
-    assume(And(a > -1, b > -1, a + b != 0, a + b != -1))
+    assume(And(a > -1, b > -1))
     N = Int('N', 1)
     x = Array('x', (N,))
     s = [Real('s%d' % k) for k in range(L)]
@@ -66,7 +75,7 @@ def bounded_sums(which):
         check('shape', np.shape(got) == shp)
         check('explicit-sum-relative-to-term-size', bool(np.all(abs(got - want) <= 1e-12 * scale)))
     elif which == 'jacobi_sum_clenshaw':
-        a, b = float(rng.uniform(-0.9, 3)), float(rng.uniform(-0.9, 3))
+        a, b = _jacobi_ab(rng)
         L = int(rng.integers(1, 11))
         s = rng.standard_normal(L)
         if rng.random() < 0.4:
